@@ -199,7 +199,7 @@ end Kodama
 * `C01_nnchain_exact`  all five chain methods in exact arithmetic (`FieldLaws K`, no NaN).
 * `C01_linkage`   through `linkage_with` for every method it routes to mst or nnchain.
 
-NOT proved: `ChainReducible` for weighted / Ward over IEEE floats (FALSE there: rounding
+NOT proved: `ChainReducible` for Ward over IEEE floats (weighted: see `Props/C01Weighted.lean` — reducible on floats by monotone rounding, under the sampled laws `HalfAddLaws`; Ward is FALSE there: rounding
 breaks it in ~11% of tied updates) — for these on floats the claim rests on the bit-exact
 correspondence and the structural validator.  For AVERAGE it was false too until the `fix:` commit of
 the crate (clamp of the mean from below); it is now a theorem for every `OrderLaws α`, see
